@@ -353,6 +353,10 @@ def run(chk: Check) -> None:
     run_plugins_snapshot(chk, ix)
     run_meta_tests_use_meta(chk, ix)
     run_suppression_reason(chk, ix)
+    # the cached interface must come back as it was written (bound from C11: R11.11, None is encoded exactly)
+    from ..resolve import Resolver
+    from .c11 import run_none_encoding
+    run_none_encoding(chk, ix, Resolver(ix))
     # R02.7: the validity record itself survives the JSON round trip (instances of C11's conversion rule)
     from .c11 import run_json_conversions
     run_json_conversions(chk, ix, rid="R02.7", only=("CacheMeta", "CacheMetaEx"), floor=4)
@@ -597,15 +601,11 @@ def run_implicit_callee_indirection(chk: Check, ix) -> None:
         r.violation(key, f.loc(), "`method_type` only flows into transform_callee_type and check_call: nothing makes it visible to patch_indirect_dependencies")
 
 
-def run_plugins_snapshot(chk: Check, ix) -> None:
-    """R02.15 / R02.16: the record of which plugins produced the cache."""
+def snapshot_written_after_processing(rule, ix) -> None:
+    """Shared by R02.15 and R04.10: every CFG path of dispatch() to write_plugins_snapshot passes process_graph."""
     from ..cfg import CFG, call_name
-    r15 = chk.rule("R02.15", "build.dispatch replaces the plugins snapshot on disk (write_plugins_snapshot) only after process_graph has run: the snapshot is the only record of which plugins produced the cache files (find_cache_meta rejects metas when it differs from the current plugins), so it may say `current plugins` only once every module rejected for that reason has been re-checked and re-written. On every CFG path (exception edges excluded: a blocking error leaves through them) the write is preceded by process_graph", floor=1)
     d = ix.func("mypy.build.dispatch")
     g = CFG(d.node)
-
-    def calls(n, name):
-        return n.kind in ("stmt", "test") and n.stmt is not None and any(isinstance(c, ast.Call) and call_name(c) == name for c in ast.walk(n.stmt if n.kind == "stmt" else getattr(n.stmt, "test", n.stmt)))
     writes = [n for n in g.nodes if n.kind == "stmt" and isinstance(n.stmt, ast.Expr) and isinstance(n.stmt.value, ast.Call) and call_name(n.stmt.value) == "write_plugins_snapshot"]
     procs = [n for n in g.nodes if n.kind == "stmt" and any(isinstance(c, ast.Call) and call_name(c) == "process_graph" for c in ast.walk(n.stmt))]
     if not writes or not procs:
@@ -613,9 +613,16 @@ def run_plugins_snapshot(chk: Check, ix) -> None:
     for w in writes:
         key = "dispatch: write_plugins_snapshot only after process_graph"
         if g.must_pass(g.entry, [w], procs, labels_excluded=("exc",)):
-            r15.ok(key, d.loc(w.stmt))
+            rule.ok(key, d.loc(w.stmt))
         else:
-            r15.violation(key, d.loc(w.stmt), "a path reaches write_plugins_snapshot without having run process_graph: when the plugins changed and process_graph then stops at a blocking error, the new snapshot lies next to metas written with the old plugins for every module not yet reached; the next run finds `snapshot == current plugins`, accepts them and replays results computed with the old plugin")
+            rule.violation(key, d.loc(w.stmt), "a path reaches write_plugins_snapshot without having run process_graph: when the plugins changed and the run then stops (a blocking error, a kill) before every module record has been rewritten, the new snapshot lies next to records written with the old plugins; the next run finds `snapshot == current plugins`, accepts them and replays results computed with the old plugin")
+
+
+def run_plugins_snapshot(chk: Check, ix) -> None:
+    """R02.15 / R02.16: the record of which plugins produced the cache."""
+    from ..cfg import CFG, call_name
+    r15 = chk.rule("R02.15", "build.dispatch replaces the plugins snapshot on disk (write_plugins_snapshot) only after process_graph has run: the snapshot is the only record of which plugins produced the cache files (find_cache_meta rejects metas when it differs from the current plugins), so it may say `current plugins` only once every module rejected for that reason has been re-checked and re-written. On every CFG path (exception edges excluded: a blocking error leaves through them) the write is preceded by process_graph", floor=1)
+    snapshot_written_after_processing(r15, ix)
     r16 = chk.rule("R02.16", "State.patch_indirect_dependencies skips modules the state already depends on; a module counts as `already depended on` only if a change of its interface is noticed for this state, i.e. it is in `dependencies` (hashed in dep_hashes) or `suppressed`. Ancestor packages are processed before the module but their interface hash is not recorded for it, so they do not count: otherwise a type reached through another module that is defined in `pkg/__init__.py` leaves `pkg.mod` with no dependency on `pkg` at all", floor=1)
     p = ix.func("mypy.build.State.patch_indirect_dependencies")
     ex = [a for a in ast.walk(p.node) if isinstance(a, ast.Assign) and norm(a.targets[0]) == "existing_deps"]
